@@ -369,6 +369,14 @@ func (d *DBFT[H]) onPrepareRequest(msg ConsensusPayload[H]) {
 		return
 	}
 
+	if d.IsPrimary() {
+		// That's our own PrepareRequest restored from a recovery message
+		// (after restart), it's our preparation already, so no response is
+		// needed (and it must not replace the request in our slot).
+		d.checkPrepare()
+		return
+	}
+
 	d.sendPrepareResponse()
 	d.checkPrepare()
 }
